@@ -10,6 +10,7 @@ RULE = ("TLC explores MessageQ.tla (one action per atomic operation) exhaustivel
 ASSUMPTIONS = ["sequentially consistent interleavings at atomic-operation granularity (weak-memory effects are C07's subject)",
                "plain code between two atomic operations of one context is one step (justified by C07's race freedom)",
                "compare-exchange does not fail spuriously (vrt implements it with a strong CAS)"]
+LOOSE = ("TraceMessageQLoose", "TraceMessageQLoose.cfg")
 ACTIONS = ["ClaimDec", "ClaimUndo", "ClaimLoad", "ClaimCas", "SendOr", "EmptyLoad", "RecvAnd", "RelAdd"]
 
 CFGS_QUICK = [("t212", (1, 2, 2, 3)), ("i212", (1, 2, 2, 3)), ("t222", (2, 2, 2, 4)), ("i222", (2, 2, 2, 4)),
@@ -46,16 +47,17 @@ def run_mq(run, exe, trace_cfg="TraceMessageQ.cfg", trace_mod="TraceMessageQ", c
         script = labels_to_script(paths, reset_line="Reset %d %d %d %d" % geo, conv=conv)
         tr = exec_script(run, exe, [], script, run.path("%scover-%s.ndjson" % (tagp, name)), "edge-cover-" + name)
         if validate:
-            check_trace(run, "edge-cover-" + name, trace_mod, trace_cfg, tr)
+            check_trace(run, "edge-cover-" + name, trace_mod, trace_cfg, tr, loose=LOOSE if trace_mod == "TraceMessageQ" else None)
         traces.append(tr)
     sample_trace(run, traces[0], 10)
     n = nrandom or (4000 if run.thorough() else 600)
     gen = "".join("Gen %d %d %d %d %d %d\n" % (run.seed * 100 + i, n, d, s, m, irq)
                   for i, (d, s, m, irq) in enumerate([(3, 4, 3, 0), (3, 4, 3, 1), (8, 6, 2, 0), (32, 6, 8, 0), (2, 6, 2, 1)]))
+    gen += "Cycle 3 700\nCycle 7 300\n"                      # histories long enough to wrap a narrow ticket / counter
     gen += "Starve 16 12\nStarve 32 20\nStarve 13 9\n"      # a claim that loses the sendp race many times in a row must still succeed
     tr = exec_script(run, exe, [], gen, run.path(tagp + "random.ndjson"), "random-schedules")
     if validate:
-        check_trace(run, "random-schedules", trace_mod, trace_cfg, tr)
+        check_trace(run, "random-schedules", trace_mod, trace_cfg, tr, loose=LOOSE if trace_mod == "TraceMessageQ" else None)
     traces.append(tr)
     return traces
 
